@@ -131,7 +131,14 @@ pub fn execute(w: &Work) -> String {
         }
         Work::KNearest { pts, k } => {
             let v: Vec<Coord<f64>> = pts.iter().map(|p| Coord { x: p.0 as f64, y: p.1 as f64 }).collect();
-            format!("{:?}", v.k_nearest_concave_hull(1 + (*k % 6) as u32))
+            // the planar sweep over the segments between consecutive points (overlapping and duplicate segments included):
+            // pairs are reported in an order that must not depend on where the segments happen to be allocated
+            let sweep = {
+                let lines: Vec<geo::Line<f64>> = v.windows(2).filter(|w| w[0] != w[1]).map(|w| geo::Line::new(w[0], w[1])).take(10).collect();
+                let pairs: Vec<_> = geo::algorithm::sweep::Intersections::<geo::Line<f64>>::from_iter(lines).collect();
+                format!("{:?}", pairs)
+            };
+            format!("{:?}|{sweep}", v.k_nearest_concave_hull(1 + (*k % 6) as u32))
         }
         Work::Outliers { pts, k } => {
             let mp = MultiPoint::new(pts.iter().map(|p| Point::new(p.0 as f64, p.1 as f64)).collect());
